@@ -5,7 +5,7 @@ from .util import call
 
 ID = 'C12'
 LEAN_MODULE = 'KernProofs.C12'
-THEOREMS = []
+THEOREMS = ['KM.C12.resets_errors', 'KM.C12.C12_state_independent', 'KM.C12.C12_history', 'KM.C12.C12_order_irrelevant', 'KM.C12.wraps_rejected', 'KM.C12.C12_rejected_cell', 'KM.C12.C12_accepted_cell', 'KM.C12.C12_exported_verbatim']
 FINGERPRINTS = ['kern_spine_importer.KernSpineImporter.import_token', 'error_listener.ErrorListener', 'importer.Importer', 'tokens.ErrorToken.export',
                 'exporter.Exporter.append_row', 'importer_factory.createImporter']
 RULE = ('generated documents (quick 30 / thorough 300) x placements of 1..3 malformed cells of four kinds (unknown characters, wrong order, truncated, valid '
